@@ -20,8 +20,12 @@ impl<'r> Filters<'r> {
 
         let mut src = self.as_ref();
 
-        // SAFETY: The type is guaranteed to be an integer type.
-        let iter: Box<dyn Iterator<Item = io::Result<usize>>> = match read_type(&mut src).unwrap() {
+        let ty = match read_type(&mut src) {
+            Ok(ty) => ty,
+            Err(e) => return Box::new(iter::once(Err(e))),
+        };
+
+        let iter: Box<dyn Iterator<Item = io::Result<usize>>> = match ty {
             None => Box::new(iter::empty()),
             Some(Type::Int8(_)) => Box::new(
                 src.iter()
@@ -35,7 +39,10 @@ impl<'r> Filters<'r> {
                 let buf = chunk.try_into().map_err(|_| invalid_value_error())?;
                 usize::try_from(i32::from_le_bytes(buf)).map_err(|_| invalid_value_error())
             })),
-            _ => unreachable!(),
+            _ => Box::new(iter::once(Err(io::Error::new(
+                io::ErrorKind::InvalidData,
+                "invalid type",
+            )))),
         };
 
         iter
@@ -56,13 +63,10 @@ impl vcf::variant::record::Filters for Filters<'_> {
     fn len(&self) -> usize {
         let mut src = self.as_ref();
 
-        // SAFETY: The type is guaranteed to be an integer type.
-        match read_type(&mut src).unwrap() {
-            None => 0,
-            Some(Type::Int8(len)) => len,
-            Some(Type::Int16(len)) => len,
-            Some(Type::Int32(len)) => len,
-            _ => unreachable!(),
+        // N.B. An invalid type is reported by `iter`.
+        match read_type(&mut src) {
+            Ok(Some(Type::Int8(len) | Type::Int16(len) | Type::Int32(len))) => len,
+            _ => 0,
         }
     }
 
